@@ -7,16 +7,17 @@ from contracts import markings as K
 LEVEL = 'exploration'
 M1 = 'marking-definition--613f2e26-407d-48c7-9eca-b8e91df99dc9'; M2 = 'marking-definition--34098fce-860f-48ae-8e50-ebd3cc5e41da'; LANG = 'en'
 MARKS = [M1, M2, LANG]
-SELS = ['name', 'description', 'labels', 'labels.[0]', 'labels.[1]', 'created', 'created_by_ref', 'external_references', 'external_references.[0]', 'external_references.[0].source_name']
+SELS = ['name', 'description', 'labels', 'labels.[0]', 'labels.[1]', 'created', 'created_by_ref', 'external_references', 'external_references.[0]', 'external_references.[0].source_name',
+        'revoked']          # description is "" and revoked is False: selectors address properties, whatever (falsy) value they hold
 
 
 def bases():
     import stix2
-    kw = dict(name='nm', description='d', labels=['a', 'b'], created_by_ref='identity--311b2d2d-f010-4473-83ec-1edf84858f4c', created='2017-01-01T00:00:00.000Z',
+    kw = dict(name='nm', description='', revoked=False, labels=['a', 'b'], created_by_ref='identity--311b2d2d-f010-4473-83ec-1edf84858f4c', created='2017-01-01T00:00:00.000Z',
               modified='2017-01-01T00:00:00.000Z', external_references=[{'source_name': 's', 'url': 'u'}])
     m21 = stix2.v21.Malware(id='malware--311b2d2d-f010-4473-83ec-1edf84858f4c', is_family=True, **kw)
     m20 = stix2.v20.Malware(id='malware--311b2d2d-f010-4473-83ec-1edf84858f4c', **kw)
-    out = {'v21 SDO': m21, 'v20 SDO': m20, 'dict': json.loads(m21.serialize())}
+    out = {'v21 SDO': m21, 'v20 SDO': m20, 'dict': dict(json.loads(m21.serialize()), revoked=False)}      # (a defaulted false is not serialized; the dictionary states it)
     return out
 
 
@@ -63,7 +64,7 @@ def run(chk):
     chk.explanation = ('P (object level, set algebra): add_markings hands new_version the set old | added (hence idempotent and order-independent), remove_markings old - removed '
                        'and raises MarkingNotFoundError exactly when something to remove is absent, clear removes everything, is_marked(M) <=> M among the object markings; '
                        'selector validity contracts are shared with C08.  B (granular functions: nested loops over nested data, outside PyVC): from 3 base objects (2.0 SDO, '
-                       '2.1 SDO, plain dictionary) all states reachable by <= 2 adds x 10 selectors (incl. string-prefix siblings created / created_by_ref, list indices, '
+                       '2.1 SDO, plain dictionary) all states reachable by <= 2 adds x 11 selectors (incl. string-prefix siblings created / created_by_ref, list indices, properties holding "" and false, '
                        'embedded-object properties) x 3 markings (2 marking refs + 1 language) x inherited/descendants flags: the laws of the statement against a set model; '
                        'multi-selector adds with partial overlap; commutativity; results are new versions with non-marking content unchanged.')
     for c in (K.object_add_contract(), K.object_remove_contract(), K.object_is_marked_contract(), K.object_clear_contract(), K.validate_contract()):
@@ -71,15 +72,25 @@ def run(chk):
 
     bs = bases()
     states = {}
+
+    def add(o, m, s):
+        """state construction: every selector used here addresses a property of the base objects, so a refusal is itself a violation"""
+        try: return markings.add_markings(o, m, s)
+        except Exception as ex:      # noqa
+            chk.violation(f'selector#valid selector rejected:{type(ex).__name__}', f'add_markings({m}, {s!r}) on an object holding that property raised {type(ex).__name__}: {str(ex)[:120]}', {'selector': s, 'marking': m})
+            return None
     for kind, o0 in bs.items():
         sts = [o0]
         marks = [M1, M2] if kind == 'v20 SDO' else MARKS          # STIX 2.0 has no language markings
-        for (s, m) in itertools.product(SELS[:8], marks): sts.append(markings.add_markings(o0, m, s))
+        for (s, m) in itertools.product(SELS[:8], marks): sts.append(add(o0, m, s))
         more = []
         for st in sts[1:10]:
-            for (s, m) in itertools.product(['name', 'labels', 'created_by_ref', 'created'], marks[::2]): more.append(markings.add_markings(st, m, s))
+            if st is None: continue
+            for (s, m) in itertools.product(['name', 'labels', 'created_by_ref', 'created'], marks[::2]): more.append(add(st, m, s))
         sts += more
-        sts.append(markings.add_markings(markings.add_markings(o0, M1, None), M2, 'labels'))       # object-level + granular
+        st1 = add(o0, M1, None)
+        if st1 is not None: sts.append(add(st1, M2, 'labels'))       # object-level + granular
+        sts = [x for x in sts if x is not None]
         if chk.tier == 'quick': sts = sts[::3]
         states[kind] = sts
 
@@ -137,7 +148,7 @@ def run(chk):
             if (sset, sexc) != (ca, cexc): return ('set#equals clear then add', f'{ctx}: set({m[-4:]}, {s}) = {sset and sorted(sset)[:3]}/{sexc}; clear;add = {ca and sorted(ca)[:3]}/{cexc}', {})
         return None
     chk.bounded('marking laws against the set model', list(cases()), check, classify=lambda c: c,
-                bound='3 base objects x states reachable by <= 2 adds (' + ('every 3rd state' if chk.tier == 'quick' else 'all') + ') x 10 selectors x 3 markings x 4 flag combinations')
+                bound='3 base objects x states reachable by <= 2 adds (' + ('every 3rd state' if chk.tier == 'quick' else 'all') + ') x 11 selectors x 3 markings x 4 flag combinations')
 
     # object-level laws natively (the proved contracts, on the real functions)
     def ocases():
